@@ -124,9 +124,15 @@ pub struct ActScript {
     /// see `SubSpec::forwards`
     #[serde(default)]
     pub forward: Option<ActId>,
+    /// effects that middleware `comp` *appends* to the list in before_effect (after its removals)
+    #[serde(default)]
+    pub adds: Vec<(CompId, EffSpec)>,
 }
 
 impl ActScript {
+    pub fn added_by(&self, comp: CompId) -> Vec<&EffSpec> {
+        self.adds.iter().filter(|(c, _)| *c == comp).map(|x| &x.1).collect()
+    }
     pub fn verdict(&self, comp: CompId, hook: Hook) -> Verdict {
         self.verdicts
             .iter()
